@@ -46,7 +46,7 @@ impl Sim {
     pub fn def_tree(&mut self, kind: u8, leaves: Vec<Leaf>) -> Tree {
         let name = format!("T{}", self.defs.len());   // unique: defs only grows
         let lt: Vec<String> = leaves.iter().map(Self::leaf_term).collect();
-        self.defs.push(format!("let {} := [{}] in", name, lt.join("; ")));
+        self.defs.push(format!("let {} := ([{}] : list leafdata) in", name, lt.join("; ")));
         let root = if kind == 0 {
             let pods: Vec<_> = leaves.iter().map(|l| self.debt_pod(l)).collect();
             svm_hash::merkle::merkle_root_from_indexed_pod_leaves(&pods, Some(rd::types::SolanaValidatorDebt::LEAF_PREFIX))
